@@ -7,6 +7,7 @@ from .common import *  # noqa: F401,F403
 from .common import (Check, OracleFailure, SymEnv, RealEnv, both, sym_pixels, pixels_from_inputs, scratch_file, symcooler, known_active)
 from .model import (build_cooler_sym, build_cooler_real, read_pixels_sym, read_pixels_real, validity_sym, validity_real)
 from engine.symnp import _sel
+from engine.symcore import SReal
 
 
 # ---------------------------------------------------------------------------
@@ -81,10 +82,13 @@ prog_sym, prog_real = both(progression_body)
 # ---------------------------------------------------------------------------
 # zoomify_cooler end to end (real coarsen_cooler underneath)
 # ---------------------------------------------------------------------------
+ONE_CHROM = [False]
+
+
 def _bins(total, w):
     import pandas as pd
     rows = []
-    for c, L in (("c0", total), ("c1", total // 2 + 1)):
+    for c, L in ((("c0", total),) if ONE_CHROM[0] else (("c0", total), ("c1", total // 2 + 1))):
         pos = 0
         while pos < L:
             rows.append((c, pos, min(pos + w, L)))
@@ -107,13 +111,21 @@ def zoomify_sym(p):
     symh5.reset()
     sc = symcooler()
     total, bases, targets, K = p["total"], p["bases"], p["targets"], p["K"]
+    ONE_CHROM[0] = bool(p.get("one_chrom"))
     srcs = {}
     uris = []
     for bi, w in enumerate(bases):
         bins = _bins(total, w)
         b1, b2, v = sym_pixels(len(bins), K, True, prefix=f"s{bi}_")
+        if p.get("one_chrom"):
+            for x_ in b1:
+                CTX.add(x_.e == 0)   # the dtype question does not depend on the row: keep the case small
         x = [sym_int(f"s{bi}_x{q}", 1, 9) for q in range(K)]
-        uris.append(build_cooler_sym(scratch_file(f"c09_b{bi}.cool"), bins, b1, b2, {"count": v, "x": x}, True, dtypes={"x": "int64"}))
+        xdt = "int64"
+        if p.get("mixed") and bi == len(bases) - 1:
+            x = [SReal.of(y) / 2 for y in x]   # this base stores x as float64 halves: levels derived from it must keep them
+            xdt = "float64"
+        uris.append(build_cooler_sym(scratch_file(f"c09_b{bi}.cool"), bins, b1, b2, {"count": v, "x": x}, True, dtypes={"x": xdt}))
         srcs[w] = (bins, b1, b2, v, x)
     out = scratch_file("c09_out.mcool")
     cs = concretize(sym_int("chunksize", 1, K + 1))
@@ -162,12 +174,17 @@ def zoomify_real(p, inputs):
     import cooler
     from cooler import fileops as fo
     total, bases, targets, K = p["total"], p["bases"], p["targets"], p["K"]
+    ONE_CHROM[0] = bool(p.get("one_chrom"))
     srcs, uris = {}, []
     for bi, w in enumerate(bases):
         bins = _bins(total, w)
         b1, b2, v = pixels_from_inputs(inputs, K, prefix=f"s{bi}_")
         x = [inputs[f"s{bi}_x{q}"] for q in range(K)]
-        uris.append(build_cooler_real(scratch_file(f"c09_b{bi}.cool"), bins, b1, b2, {"count": v, "x": x}, True, dtypes={"x": "int64"}))
+        xdt = "int64"
+        if p.get("mixed") and bi == len(bases) - 1:
+            x = [y / 2 for y in x]
+            xdt = "float64"
+        uris.append(build_cooler_real(scratch_file(f"c09_b{bi}.cool"), bins, b1, b2, {"count": v, "x": x}, True, dtypes={"x": xdt}))
         srcs[w] = (bins, b1, b2, v, x)
     out = scratch_file("c09_out.mcool")
     derivable = all(any(t % b == 0 for b in bases) for t in targets)
@@ -214,7 +231,8 @@ def zoomify_real(p, inputs):
 def _zoom_cases(tier):
     out = [dict(total=8, bases=[2], targets=[4, 8], K=1), dict(total=6, bases=[1], targets=[3, 2, 6], K=1),
            dict(total=6, bases=[2, 3], targets=[6], K=1), dict(total=8, bases=[2], targets=[4, 3], K=1),
-           dict(total=8, bases=[2, 4], targets=[8], K=1)]
+           dict(total=8, bases=[2, 4], targets=[8], K=1),
+           dict(total=12, bases=[2, 3], targets=[4, 6], K=1, mixed=True, one_chrom=True)]   # two bases whose value column has different dtypes
     if tier != "quick":
         out += [dict(total=8, bases=[2], targets=[4, 8], K=2), dict(total=12, bases=[2], targets=[6, 4, 2], K=1), dict(total=12, bases=[2, 3], targets=[6, 4], K=1),dict(total=12, bases=[2], targets=[4, 12, 6], K=2), dict(total=12, bases=[3, 2], targets=[12, 6, 4], K=2),
                 dict(total=16, bases=[2], targets=[4, 8, 16], K=2), dict(total=12, bases=[1], targets=[2, 3, 6], K=2),
